@@ -194,8 +194,18 @@ def r2(ctx):
             ctx.ok(construct, f'-> "{reg_type}" -> token "{token}" -> {ci.name}')
     # Angle sizes are converted to plain Quantity before formatting
     f = m.func(IO_CORE, '_to_shape_list')
-    conv = any(isinstance(st, ast.If) and 'isinstance(val, Angle)' in norm(st.test) and
-               'u.Quantity(val)' in norm(st.body[0]) for st in stmts_of(f.node))
+    # (decided on the value: a circle whose radius is an Angle object must reach the shape as Quantity(Angle))
+    evq = Evaluator(m)
+    rq = evq.symbolic_instance(m.cls('CircleSkyRegion'), 'region')
+    rq.fields['radius'] = App('astropy.coordinates.Angle', (sp.Symbol('r_angle', positive=True),))
+    outq = evq.run(f, [Tup((rq,), 'list'), Const('fk5')], {})
+    conv = False
+    for _, v in outq.returns:
+        items = v.fields.get('__items__') if isinstance(v, Obj) else None
+        if isinstance(items, Tup) and items.items and isinstance(items.items[0], Obj):
+            co = items.items[0].fields.get('coord')
+            if isinstance(co, Tup) and len(co.items) == 3:
+                conv = isinstance(co.items[2], App) and co.items[2].name == 'astropy.units.Quantity'
     if conv:
         ctx.ok('_to_shape_list:angle-to-quantity', 'Angle values become plain Quantity (so they are unit-converted when written)')
     else:
@@ -446,7 +456,7 @@ def r3(ctx):
     sl = m.cls('_ShapeList')
     tc = method_or_fail(ctx, sl, 'to_crtf')
     piece = None
-    for n in ast.walk(tc.node):
+    for n in ast.walk(ctx.src.parse(m.modules[IO_CORE].path)):
         if isinstance(n, ast.JoinedStr) and sum(isinstance(v, ast.FormattedValue) for v in n.values) == 2 \
                 and isinstance(n.values[0], ast.Constant) and str(n.values[0].value).startswith('['):
             k = iter(range(1, 3))
@@ -680,12 +690,15 @@ def r8(ctx):
         ctx.ok('_CRTFRegionParser.set_coordsys', f'{len(want_read)} CASA frame keywords (any case) map to their astropy frames')
     # metadata keys: what the reader accepts inline must be writable
     f = m.func(IO_CORE, '_to_crtf_meta')
-    wkeys = []
-    for st in stmts_of(f.node):
-        if isinstance(st, (ast.Assign, ast.AugAssign)) and norm(st.targets[0] if isinstance(st, ast.Assign) else st.target) == 'valid_keys':
-            wkeys += ast.literal_eval(st.value)
     pkeys = class_tables(m, '_CRTFParser').get('valid_global_keys')
-    ctx.need(wkeys and isinstance(pkeys, tuple), 'crtf meta tables', 'not evaluable')
+    ctx.need(isinstance(pkeys, tuple), 'crtf meta tables', 'reader key table not evaluable')
+    # the writer's whitelist, observed: which of the reader's keys survive _to_crtf_meta
+    wkeys = []
+    for k_ in sorted(set(pkeys) | {'label'}):
+        r_ = Evaluator(m).call(f, [DictV([{k_: Const('v')}])], {})
+        ctx.need(isinstance(r_, DictV) and not r_.has_symbolic(), f.qualname, f'filter not reducible on {{{k_!r}: ...}}')
+        if r_.keys():
+            wkeys.append(k_)
     accepted = (set(pkeys) | {'label'}) - {'coord'}
     lost = sorted(accepted - set(wkeys))
     if lost:
@@ -736,7 +749,9 @@ def _meta_text_of(ctx, out, key, ph):
 def _writer_meta_string(ctx, label_value):
     """the metadata text written for a circle with that label (rendered)."""
     m = ctx.model
-    ser, ev, out = eval_writer(m, m.cls('CircleSkyRegion'), 'fk5', meta={'label': Obj('str', {}, 'L')})
+    lab = Obj('str', {}, 'L')
+    lab.truth = True              # a non-empty label (the probes below all are)
+    ser, ev, out = eval_writer(m, m.cls('CircleSkyRegion'), 'fk5', meta={'label': lab})
     return _meta_text_of(ctx, out, 'label', {'L': label_value})
 
 
